@@ -744,6 +744,11 @@ func TestC20_GsxDiagnosticsRace(t *testing.T) {
 		writers := rapid.IntRange(1, 3).Draw(t, "writers")
 		reads := rapid.IntRange(50, 400).Draw(t, "readsEach")
 		writes := rapid.IntRange(20, 150).Draw(t, "writesEach")
+		r.ev.OnCall = func(c dbl.EvCall) {
+			if c.Kind == "opened" {
+				time.Sleep(50 * time.Microsecond) // the manager records the event: the hook is inside the handler for a moment
+			}
+		}
 		var wg sync.WaitGroup
 		for g := 0; g < readers; g++ {
 			wg.Add(1)
@@ -773,11 +778,56 @@ func TestC20_GsxDiagnosticsRace(t *testing.T) {
 				}
 			}()
 		}
+		// ... and goroutines that open a channel (the outgoing-request hook runs inside the open
+		// call and looks the channel up) while another goroutine cleans the same channel up
+		openers := rapid.IntRange(1, 2).Draw(t, "openers")
+		opens := rapid.IntRange(10, 40).Draw(t, "opensEach")
+		var knownF16 int64
+		for g := 0; g < openers; g++ {
+			g := g
+			wg.Add(1)
+			go func() {
+				defer wg.Done()
+				for i := 0; i < opens; i++ {
+					other := gen.Peer(4 + i%2)
+					tid := datatransfer.TransferID(100000*(g+1) + i)
+					chid := datatransfer.ChannelID{Initiator: r.self, Responder: other, ID: tid}
+					req := newRequestMsg(tid, false, true, datatransfer.TypedVoucher{Type: "T/a", Voucher: basicnode.NewString("v")}, simpleCid(1), strNode("sel"))
+					var inner sync.WaitGroup
+					inner.Add(2)
+					go func() {
+						defer inner.Done()
+						// (the caller's context is bounded: known finding F16 - an open whose channel is
+						// cleaned up while its outgoing-request hook runs waits for its context)
+						octx, cancel := context.WithTimeout(context.Background(), 100*time.Millisecond)
+						defer cancel()
+						if err := r.tr.OpenChannel(octx, other, chid, linkOf(simpleCid(1)), strNode("sel"), nil, req); errors.Is(err, context.DeadlineExceeded) {
+							atomic.AddInt64(&knownF16, 1)
+						}
+					}()
+					go func() {
+						defer inner.Done()
+						time.Sleep(time.Duration(i%5) * 20 * time.Microsecond)
+						r.tr.CleanupChannel(chid)
+					}()
+					inner.Wait()
+					r.tr.CleanupChannel(chid)
+				}
+			}()
+		}
 		if ok, dump := joinOrDump(&wg, watchdog); !ok {
-			mfail(t, nil, "C20/transport-deadlock", "ChannelsForPeer from %d goroutines against %d goroutines receiving requests and cleaning up did not finish within %s:\n%s", readers, writers, watchdog, dump)
+			mfail(t, nil, "C20/transport-deadlock", "ChannelsForPeer from %d goroutines, %d goroutines receiving requests and cleaning up, %d goroutines opening channels that are cleaned up concurrently: not finished within %s:\n%s", readers, writers, openers, watchdog, dump)
+		}
+		for _, call := range r.gs.Since(0) {
+			if call.Kind == "request" {
+				r.gs.Complete(call.ID, nil)
+			}
 		}
 		sp.Eval()
 		sp.Nontrivial(stats.FP("diag-race", readers, writers, reads/50, writes/20))
 		sp.Class("gsx_diagnostics_vs_channel_map_writers")
+		if atomic.LoadInt64(&knownF16) > 0 {
+			sp.Class("known_F16_open_ended_by_its_context_after_a_concurrent_cleanup")
+		}
 	})
 }
